@@ -129,6 +129,13 @@ def r3(ctx, prog):
     reuse = [st for st in al.stmts if st and st['k'] == 'BinaryOperator' and st.get('op') == '=' and al.path(st['ch'][0]) == 'free_header_' and al.path(st['ch'][1]) == 'block.next']
     ctx.ob('C08.R3', 'ObjectPool::alloc|unlink', len(reuse) == 1 and al.cfg.dominates(q.pt(al, reuse[0]), q.pt(al, news[0])) is not None and
            not al.cfg.exists_path(q.pt(al, news[0]), q.pt(al, reuse[0])), 'a cached block is unlinked from the free list before it is constructed into', where=al.loc(al.body))
+    # alloc() constructs and never destroys: it reaches no destructor call of the pooled type, neither directly nor through the pool's own methods
+    dtor_in = lambda g: [st for st in g.stmts if st and st['k'] == 'CXXMemberCallExpr' and (st.get('fn') or '').startswith('~')]
+    reach = [al] + list(q.transitive_callees(prog, al, within=lambda h: (prog.outermost(h).cls or '').startswith('tbox::ObjectPool<')))
+    culprit = [(g, d_) for g in reach for d_ in dtor_in(g)]
+    ctx.ob('C08.R3', 'ObjectPool::alloc|no-dtor', not culprit, 'alloc() reaches no destructor call' if not culprit else
+           'alloc() reaches the destructor call at %s (through %s): on that path a destructor runs for an object whose constructor did not complete — not one '
+           'constructor and one destructor per alloc/free pair' % (culprit[0][0].loc(culprit[0][1]['i']), culprit[0][0].short), where=al.loc(al.body))
     fr = prog.fn1(POOL + '::free')
     dt = [st for st in fr.stmts if st and st['k'] == 'CXXMemberCallExpr' and (st.get('fn') or '').startswith('~')]
     thread = [st for st in fr.stmts if st and st['k'] == 'BinaryOperator' and st.get('op') == '=' and fr.path(st['ch'][0]) == 'block.next']
@@ -237,6 +244,31 @@ def r7(ctx, prog):
                'still delivered with its stale pointer' % ap, where=f.loc(iv['i']))
 
 
+INVALIDATING = ('swap', 'clear', 'erase', 'resize', 'shrink_to_fit', 'assign', 'operator=', 'pop_back', 'push_back', 'emplace_back', 'insert', 'emplace', 'reserve')
+
+
+def r8(ctx, prog):
+    ctx.rule('C08.R8', 'A7 storage stability under the documented use ("removal is allowed while iterating"): Cabinet::foreach walks cells_ by range-for / iterators, so '
+             'Cabinet::free — the operation a callback may perform — only reads and writes elements of cells_ and never moves, shrinks or releases the vector', floor=1)
+    fe = [f for f in prog.funcs.values() if f.name.startswith('tbox::cabinet::Cabinet<') and f.short == 'foreach' and not f.parent_usr]
+    fr = [f for f in prog.funcs.values() if f.name.startswith('tbox::cabinet::Cabinet<') and f.short == 'free' and not f.parent_usr]
+    if not fe or not fr:
+        raise AnalysisBroken('no instantiation of Cabinet::foreach/free in the analysed units')
+    by_iter = any(st and st['k'] == 'CXXForRangeStmt' and (g.field_of(st['range']) or '').endswith('::cells_') for g in fe for st in g.stmts) or \
+        any(st.get('fn') in ('begin', 'end') and (g.field_of(st.get('obj')) or '').endswith('::cells_') for g in fe for st in g.calls())
+    f = sorted(fr, key=lambda g: g.name)[0]
+    bad = []
+    for c in f.calls():
+        on_cells = (c.get('obj') is not None and (f.field_of(c['obj']) or '').endswith('::cells_')) or \
+            any((f.field_of(a) or '').endswith('::cells_') for a in c.get('args', []))
+        if on_cells and c.get('fn') in INVALIDATING:
+            bad.append(c)
+    ok = not (by_iter and bad)
+    ctx.ob('C08.R8', 'Cabinet::free|cells-stable', ok, 'free() touches cells_ only through element access' if ok else
+           'Cabinet::free() calls %s on cells_ (%s) while foreach() iterates that vector by reference: a callback that frees the last live entry releases the array under the '
+           'running loop, which goes on reading freed cells' % (bad[0].get('fn'), f.loc(bad[0]['i'])), where=f.loc(bad[0]['i']) if bad else f.loc(f.body))
+
+
 def r6(ctx, prog):
     ctx.rule('C08.R6', 'A9d (whole program): a token look-up may answer "nothing" — every pointer obtained from Cabinet::at/free/operator[] is '
                        'null-tested before it is dereferenced, also inside deferred tasks that capture it', floor=25)
@@ -291,4 +323,5 @@ def run(ctx):
     ctx.guard(r5, ctx, prog)
     ctx.guard(r6, ctx, prog)
     ctx.guard(r7, ctx, prog)
+    ctx.guard(r8, ctx, prog)
     return prog
